@@ -198,6 +198,9 @@ def gen_system(rng):
     for i in range(rng.choice([0, 0, 1, 2])):
         nm = f"p{i}" + (("_" + rng.choice("ymwd")) if rng.random() < 0.5 else "")
         src = rng.choice(names + list(data) + ["nonexistent"])
+        # the source may be a column that only a time conversion (of a data column / a rule) or a group sum provides
+        if rng.random() < 0.3 and src != "nonexistent":
+            src = rng.choice(variants(src))
         pspecs[nm] = {"p_id_to_aggregate_by": rng.choice(["p_id_recv"] * 4 + ["p_id_einstandspartner", "k1", "x1"]),
                       "source_col": src, "aggr": "sum"}
     universe = list(data) + names + list(pspecs)
@@ -266,6 +269,9 @@ def gen_system(rng):
         spec = {"aggr": aggr}
         if aggr != "count" or rng.random() < 0.3:
             spec["source_col"] = rng.choice(fnames + list(data) + list(pspecs) + ["nonexistent"] if rng.random() < 0.9 else ["nonexistent"])
+            # the source of a specification may itself be an automatic group sum (`max over a_m_hh`)
+            if rng.random() < 0.25 and spec["source_col"] != "nonexistent":
+                spec["source_col"] = spec["source_col"] + "_" + rng.choice(SUFF if std else ["hh"])
         if aggr != "count" and rng.random() < 0.02: del spec["source_col"]
         gspecs[nm] = spec
     # ---- targets
